@@ -20,6 +20,7 @@ from sa.loader import AnalysisError
 from sa.peval import RETURNS_NONE
 from sa.peval import UNKNOWN
 from sa.peval import AbstractObject
+from sa.peval import _PathRaises
 from sa.peval import Explorer
 
 from . import Ctx
@@ -34,6 +35,7 @@ class Model:
         self.depth = 0
         self.hook = on_call
         self.oracle = oracle
+        self.whole_bodies = False  # run loops / with-blocks of every called method on the concrete values
         self.cache: Dict[Tuple[int, str, Tuple[object, ...]], object] = {}
 
     def new(self, cls: str, **kwargs: object) -> "MObj":
@@ -47,24 +49,50 @@ class Model:
         self.call(obj, "__init__", [], kwargs)
         return obj
 
-    def call(self, obj: "MObj", method: str, args: List[object], kwargs: Optional[Dict[str, object]] = None) -> object:
-        fn = self.ctx.repo.find_method(self.ctx.repo.require_class(obj.cls), method)
+    def call_function(self, fn, args: List[object], kwargs: Optional[Dict[str, object]] = None) -> object:  # type: ignore[no-untyped-def]
+        """A module-level function of the package, executed abstractly like a method (no receiver)."""
+        holder = MObj(self, "$function", {})
+        return self._run(fn, holder, fn.name, args, kwargs, bind_self=False)
+
+    def call(self, obj: "MObj", method: str, args: List[object], kwargs: Optional[Dict[str, object]] = None,
+             after: Optional[str] = None) -> object:
+        """`after`: qualified name of a class - the method is looked up in the classes that follow it in the
+        object's MRO (what `super().method(...)` inside that class means)."""
+        cls = self.ctx.repo.require_class(obj.cls)
+        if after is None:
+            fn = self.ctx.repo.find_method(cls, method)
+        else:
+            fn = None
+            mro = list(self.ctx.repo.mro(cls))
+            if after in mro:
+                for q in mro[mro.index(after) + 1:]:
+                    info = self.ctx.repo.classes.get(q)
+                    if info is not None and method in info.methods:
+                        fn = info.methods[method]
+                        break
+            if fn is None:
+                return RETURNS_NONE if method == "__init__" else UNKNOWN  # object.__init__ and the like
         if fn is None:
             return UNKNOWN
-        key = (obj.uid, fn.qualname, tuple(("$node", a.uid) if isinstance(a, MObj) else a for a in args))
+        return self._run(fn, obj, method, args, kwargs, bind_self=True)
+
+    def _run(self, fn, obj: "MObj", method: str, args: List[object], kwargs: Optional[Dict[str, object]], bind_self: bool) -> object:  # type: ignore[no-untyped-def]
+        key = (obj.uid, fn.qualname, tuple(("$node", a.uid) if isinstance(a, MObj) else a for a in args))  # fn.qualname names the class
         cacheable = method != "__init__" and not kwargs and all(isinstance(k, (str, int, float, bool, type(None), tuple)) for k in key[2])
         if cacheable and key in self.cache:
             return self.cache[key]
         if self.depth > 12:  # noqa: PLR2004
             raise AnalysisError(f"{self.rule}: recursion too deep in the abstract execution of {fn.qualname}")
         params = [a.arg for a in fn.node.args.args]
-        static = any(isinstance(d, ast.Name) and d.id == "staticmethod" for d in fn.node.decorator_list)
+        static = any(isinstance(d, ast.Name) and d.id == "staticmethod" for d in fn.node.decorator_list) or not bind_self
         env: Dict[str, object] = {}
         if not static and params:
             env[params[0]] = obj
             params = params[1:]
         for pname, a in zip(params, args):
             env[pname] = a
+        if fn.node.args.vararg is not None:
+            env[fn.node.args.vararg.arg] = tuple(args[len(params):])
         for k, v in (kwargs or {}).items():
             env[k] = v
 
@@ -88,15 +116,33 @@ class Model:
                 r = self.hook(e, a, env2, ex)
                 if r is not None:
                     return r
+            if isinstance(e.func, ast.Name) and e.func.id not in env2 and e.func.id in fn.module.functions:
+                # a module-level helper of the same module
+                kwf = {k.arg: ex.value(k.value, env2) for k in e.keywords if k.arg}
+                rf = self.call_function(fn.module.functions[e.func.id], list(a), kwf)
+                if rf is RAISES:
+                    raise _PathRaises("callee raises")
+                return RETURNS_NONE if rf is None else rf
+            if (isinstance(e.func, ast.Attribute) and isinstance(e.func.value, ast.Call) and isinstance(e.func.value.func, ast.Name)
+                    and e.func.value.func.id == "super" and not e.func.value.args and fn.cls is not None and not static):
+                kw0 = {k.arg: ex.value(k.value, env2) for k in e.keywords if k.arg}
+                r0 = self.call(obj, e.func.attr, list(a), kw0, after=fn.cls.qualname)
+                if r0 is RAISES:
+                    raise _PathRaises("callee raises")
+                return RETURNS_NONE if r0 is None else r0
             if isinstance(e.func, ast.Attribute) and isinstance(e.func.value, (ast.Name, ast.Attribute)):
                 base = ex.value(e.func.value, env2)
                 if isinstance(base, MObj):
                     kw = {k.arg: ex.value(k.value, env2) for k in e.keywords if k.arg}
                     r = base.peval_call(e.func.attr, list(a), kw)
+                    if r is RAISES:
+                        raise _PathRaises("callee raises")
                     return RETURNS_NONE if r is None else r
             return None
 
-        ex = Explorer(self.ctx.folder, fn, self.oracle, on_call=on_call)
+        is_gen = any(isinstance(n, (ast.Yield, ast.YieldFrom)) for n in ast.walk(fn.node))
+        ex = Explorer(self.ctx.folder, fn, self.oracle, on_call=on_call, enter_loops=is_gen or self.whole_bodies,
+                      enter_with=is_gen or self.whole_bodies)
         self.depth += 1
         try:
             outs = ex.run(env)
@@ -104,6 +150,14 @@ class Model:
             self.depth -= 1
         if method == "__init__":
             return None
+        if is_gen:
+            # the value of calling a generator function, for an explorer that iterates over it: what one path
+            # yields, in order (several paths = a test was not decided)
+            ends = [e2 for (k, _n, _v), e2 in zip(outs, ex.envs) if k in ("fall", "return") and not e2.get("$handlers")]
+            if len(ends) != 1 or any(k == "raise" for (k, _n, _v), e2 in zip(outs, ex.envs) if not e2.get("$handlers")):
+                return UNKNOWN
+            ys_ = ends[0].get("$yields", ())
+            return list(ys_) if isinstance(ys_, tuple) else UNKNOWN
         # outcomes that went through an exception handler are the exceptional alternatives of a path that
         # also completes normally; the value of the call is that of the normal completions when there are any
         normal = [(k, v) for (k, _n, v), e2 in zip(outs, ex.envs) if not e2.get("$handlers")]
@@ -165,3 +219,93 @@ class MObj(AbstractObject):
 
     def peval_call(self, method: str, args: List[object], kwargs: Dict[str, object]) -> object:
         return self.model.call(self, method, args, kwargs)
+
+
+def run_selector(ctx: Ctx, rule: str, cname: str, mname: str, fields: Dict[str, object], doc: object,
+                 init: Optional[Dict[str, object]] = None, build=None) -> Optional[List[Tuple[object, object]]]:  # type: ignore[no-untyped-def]
+    """Abstract execution of one selector's resolver on one input node whose value is `doc`: the (obj, parts) of
+    every match it constructs, in order; None when a path cannot be decided."""
+    from .common import callee_name
+    from .common import kw
+
+    cls = ctx.repo.require_class("jsonpath.selectors." + cname)
+    fn = cls.methods.get(mname)
+    if fn is None:
+        raise AnalysisError(f"{rule}: {cname}.{mname} not found")
+    loops = [x for x in fn.node.body if isinstance(x, (ast.For, ast.AsyncFor))]
+    if len(loops) != 1 or not isinstance(loops[0].target, ast.Name):
+        raise AnalysisError(f"{rule}: {cname}.{mname} is no longer one loop over the input nodes")
+    mvar = loops[0].target.id
+    got: List[Tuple[object, object]] = []
+
+    def hook(e: ast.Call, a: List[object], env: Dict[str, object], ex: Explorer) -> object:
+        if callee_name(e) in ("match_class", "JSONPathMatch"):
+            o, pt = kw(e, "obj"), kw(e, "parts")
+            return MObj(model, "JSONPathMatch", {"obj": ex.value(o, env) if o is not None else UNKNOWN,
+                                                  "parts": ex.value(pt, env) if pt is not None else UNKNOWN,
+                                                  "root": UNKNOWN, "path": UNKNOWN})
+        return None
+
+    model = Model(ctx, rule, hook)
+    model.whole_bodies = True
+    envobj = MObj(model, "JSONPathEnvironment", {})
+    if build is not None:
+        sel = build(model, envobj)
+    elif init is not None:
+        # the selector as its own constructor builds it
+        sel = model.new(cname, env=envobj, token=MObj(model, "Token", {"value": UNKNOWN, "kind": UNKNOWN}), **init)
+        missing = [k for k in fields if k not in sel.fields]
+        if "env" not in sel.fields:
+            sel.fields["env"] = envobj
+        _ = missing
+    else:
+        sel = MObj(model, cname, dict(fields, env=envobj))
+    match = MObj(model, "JSONPathMatch", {"obj": doc, "parts": ("a",), "path": "$['a']", "root": UNKNOWN})
+    ex: Explorer
+
+    def on_call(e: ast.Call, a: List[object], env: Dict[str, object]) -> object:
+        r = hook(e, a, env, ex)
+        if r is not None:
+            return r
+        if isinstance(e.func, ast.Name) and e.func.id not in env and e.func.id in fn.module.functions:
+            kwf = {k.arg: ex.value(k.value, env) for k in e.keywords if k.arg}
+            rf = model.call_function(fn.module.functions[e.func.id], list(a), kwf)
+            if rf is RAISES:
+                raise _PathRaises("callee raises")
+            return RETURNS_NONE if rf is None else rf
+        if isinstance(e.func, ast.Attribute) and isinstance(e.func.value, (ast.Name, ast.Attribute)):
+            base = ex.value(e.func.value, env)
+            if isinstance(base, MObj):
+                kws = {k.arg: ex.value(k.value, env) for k in e.keywords if k.arg}
+                r2 = base.peval_call(e.func.attr, list(a), kws)
+                if r2 is RAISES:
+                    raise _PathRaises("callee raises")
+                return RETURNS_NONE if r2 is None else r2
+        return None
+
+    ex = Explorer(ctx.folder, fn, None, on_call=on_call, enter_loops=True, enter_with=True)
+    ends = ex.block(list(loops[0].body), {fn.node.args.args[0].arg: sel, mvar: match})
+    # one concrete node: exactly one way through the body (more = a test was not decided); what the selector
+    # produces is what that path *yields* (a match that is constructed but not yielded is not selected)
+    finals = ends + [e2 for (k, _n, _v), e2 in zip(ex.outcomes, ex.envs) if k in ("continue", "break", "return")]
+    if len(finals) != 1:
+        if __import__("os").environ.get("VERIF_DEBUG_MODEL"):
+            print("run_selector paths:", cname, mname, fields, doc, len(finals))
+        return None
+    ys = finals[0].get("$yields", ())
+    if not isinstance(ys, tuple):
+        if __import__("os").environ.get("VERIF_DEBUG_MODEL"):
+            print("run_selector yields unknown:", cname, mname, fields, doc)
+        return None
+    got = []
+    for y in ys:  # type: ignore[union-attr]
+        if isinstance(y, MObj) and "obj" in y.fields:
+            got.append((y.fields["obj"], y.fields.get("parts", UNKNOWN)))
+        else:
+            got.append((UNKNOWN, UNKNOWN))
+    undecided = any(o is UNKNOWN or pt is UNKNOWN for o, pt in got)
+    if undecided and __import__("os").environ.get("VERIF_DEBUG_MODEL"):
+        print("run_selector undecided:", cname, mname, fields, doc, got)
+    if undecided:
+        return None
+    return got
